@@ -15,6 +15,8 @@ pub struct SchedReader<'a> {
     pub sched: &'a [usize],
     pub i: usize,
     pub fail_at: Option<usize>,
+    /// set when a read into a non-empty buffer returned Ok(0): the reader has reported the end
+    pub eof: Option<&'a std::sync::atomic::AtomicBool>,
 }
 impl<'a> Read for SchedReader<'a> {
     fn read(&mut self, buf: &mut [u8]) -> io::Result<usize> {
@@ -39,6 +41,11 @@ impl<'a> Read for SchedReader<'a> {
         }
         buf[..n].copy_from_slice(&self.data[self.pos..self.pos + n]);
         self.pos += n;
+        if n == 0 && !buf.is_empty() {
+            if let Some(e) = self.eof {
+                e.store(true, std::sync::atomic::Ordering::Relaxed);
+            }
+        }
         Ok(n)
     }
 }
@@ -133,6 +140,43 @@ fn stream_find(b: &Built, rdr: SchedReader) -> Result<Vec<Result<M, String>>, St
     }
 }
 
+/// keep iterating after an error item (the injected fault is transient): returns the items and
+/// whether the iterator ended (None) — used for "end of stream only when the reader reports it"
+fn stream_find_resume(b: &Built, rdr: SchedReader) -> Result<(Vec<Result<M, String>>, bool), String> {
+    fn go<I: Iterator<Item = io::Result<aho_corasick::Match>>>(it: I) -> (Vec<Result<M, String>>, bool) {
+        let mut out = vec![];
+        let mut errs = 0;
+        let mut ended = false;
+        let mut it = it;
+        loop {
+            match it.next() {
+                None => {
+                    ended = true;
+                    break;
+                }
+                Some(Ok(m)) => out.push(Ok(cv(m))),
+                Some(Err(e)) => {
+                    out.push(Err(e.to_string()));
+                    errs += 1;
+                    if errs > 3 || out.len() > 10_000 {
+                        break;
+                    }
+                }
+            }
+        }
+        (out, ended)
+    }
+    fn generic<A: aho_corasick::automaton::Automaton>(a: A, rdr: SchedReader) -> Result<(Vec<Result<M, String>>, bool), String> {
+        a.try_stream_find_iter(rdr).map(go).map_err(|e| e.to_string())
+    }
+    match b {
+        Built::Top(t) => t.try_stream_find_iter(rdr).map(go).map_err(|e| e.to_string()),
+        Built::NC(a) => generic(a, rdr),
+        Built::C(a) => generic(a, rdr),
+        Built::D(a) => generic(a, rdr),
+    }
+}
+
 fn stream_replace(b: &Built, rdr: SchedReader, w: &mut FaultWriter, repl: &[Vec<u8>]) -> io::Result<()> {
     match b {
         Built::Top(t) => t.try_stream_replace_all(rdr, w, repl),
@@ -176,7 +220,7 @@ pub fn check_one(rep: &Report, cfg: &Cfg, b: &Built, pats: &[Vec<u8>], data: &[u
     let want_out = oracle::splice(data, &want, &repl);
     // C07
     if do_find {
-    let got = catch_unwind(AssertUnwindSafe(|| stream_find(b, SchedReader { data, pos: 0, sched: SCHEDS[si], i: 0, fail_at: None })));
+    let got = catch_unwind(AssertUnwindSafe(|| stream_find(b, SchedReader { data, pos: 0, sched: SCHEDS[si], i: 0, fail_at: None, eof: None })));
     let ok = matches!(&got, Ok(Ok(v)) if v.len() == want.len() && v.iter().zip(&want).all(|(a, b)| a.as_ref().ok() == Some(b)));
     rep.case(!want.is_empty());
     if !ok {
@@ -186,7 +230,7 @@ pub fn check_one(rep: &Report, cfg: &Cfg, b: &Built, pats: &[Vec<u8>], data: &[u
     // C08: table replacement and closure variant
     if do_replace {
     let mut w = FaultWriter { out: vec![], fail_after: None };
-    let r = catch_unwind(AssertUnwindSafe(|| stream_replace(b, SchedReader { data, pos: 0, sched: SCHEDS[si], i: 0, fail_at: None }, &mut w, &repl)));
+    let r = catch_unwind(AssertUnwindSafe(|| stream_replace(b, SchedReader { data, pos: 0, sched: SCHEDS[si], i: 0, fail_at: None, eof: None }, &mut w, &repl)));
     rep.case(!want.is_empty());
     if !matches!(&r, Ok(Ok(()))) || w.out != want_out {
         fail(rep, "replace_all", cfg, pats, data, si, spare, None, format!("expected '{}', got '{}' ({:?})", show(&want_out), show(&w.out), r.map(|x| x.map_err(|e| e.to_string()))));
@@ -194,7 +238,7 @@ pub fn check_one(rep: &Report, cfg: &Cfg, b: &Built, pats: &[Vec<u8>], data: &[u
     // a writer with short writes (1 or 2 bytes per call) must still receive everything
     if let Built::Top(t) = b {
         let mut sw = ShortWriter { out: vec![], max: 1 + si % 2 };
-        let r = catch_unwind(AssertUnwindSafe(|| t.try_stream_replace_all(SchedReader { data, pos: 0, sched: SCHEDS[si], i: 0, fail_at: None }, &mut sw, &repl)));
+        let r = catch_unwind(AssertUnwindSafe(|| t.try_stream_replace_all(SchedReader { data, pos: 0, sched: SCHEDS[si], i: 0, fail_at: None, eof: None }, &mut sw, &repl)));
         rep.case(!want.is_empty());
         if !matches!(&r, Ok(Ok(()))) || sw.out != want_out {
             fail(rep, "replace_all(short-write writer)", cfg, pats, data, si, spare, None, format!("expected '{}', got '{}'", show(&want_out), show(&sw.out)));
@@ -202,7 +246,7 @@ pub fn check_one(rep: &Report, cfg: &Cfg, b: &Built, pats: &[Vec<u8>], data: &[u
     }
     let mut w2 = FaultWriter { out: vec![], fail_after: None };
     let mut seen = vec![];
-    let r = catch_unwind(AssertUnwindSafe(|| stream_replace_with(b, SchedReader { data, pos: 0, sched: SCHEDS[si], i: 0, fail_at: None }, &mut w2, &mut seen)));
+    let r = catch_unwind(AssertUnwindSafe(|| stream_replace_with(b, SchedReader { data, pos: 0, sched: SCHEDS[si], i: 0, fail_at: None, eof: None }, &mut w2, &mut seen)));
     let seen_ok = seen.len() == want.len() && seen.iter().zip(&want).all(|((m, bytes), w)| m == w && bytes[..] == data[w.start..w.end]);
     rep.case(!want.is_empty());
     if !matches!(&r, Ok(Ok(()))) || !seen_ok {
@@ -214,18 +258,18 @@ pub fn check_one(rep: &Report, cfg: &Cfg, b: &Built, pats: &[Vec<u8>], data: &[u
     }
     // C18 is relative to the *fault-free run of the same code*: what the real searcher yields /
     // writes without faults (not the definition, which is C07/C08's business)
-    let want: Vec<M> = match catch_unwind(AssertUnwindSafe(|| stream_find(b, SchedReader { data, pos: 0, sched: SCHEDS[si], i: 0, fail_at: None }))) {
+    let want: Vec<M> = match catch_unwind(AssertUnwindSafe(|| stream_find(b, SchedReader { data, pos: 0, sched: SCHEDS[si], i: 0, fail_at: None, eof: None }))) {
         Ok(Ok(v)) => v.into_iter().filter_map(|x| x.ok()).collect(),
         _ => want,
     };
     let want_out = {
         let mut w = FaultWriter { out: vec![], fail_after: None };
-        let _ = catch_unwind(AssertUnwindSafe(|| stream_replace(b, SchedReader { data, pos: 0, sched: SCHEDS[si], i: 0, fail_at: None }, &mut w, &repl)));
+        let _ = catch_unwind(AssertUnwindSafe(|| stream_replace(b, SchedReader { data, pos: 0, sched: SCHEDS[si], i: 0, fail_at: None, eof: None }, &mut w, &repl)));
         w.out
     };
     // C18: a read fault at every position k
     for k in 0..=data.len() {
-        let got = catch_unwind(AssertUnwindSafe(|| stream_find(b, SchedReader { data, pos: 0, sched: SCHEDS[si], i: 0, fail_at: Some(k) })));
+        let got = catch_unwind(AssertUnwindSafe(|| stream_find(b, SchedReader { data, pos: 0, sched: SCHEDS[si], i: 0, fail_at: Some(k), eof: None })));
         rep.case(true);
         let ok = match &got {
             Ok(Ok(v)) => {
@@ -240,8 +284,24 @@ pub fn check_one(rep: &Report, cfg: &Cfg, b: &Built, pats: &[Vec<u8>], data: &[u
         if !ok {
             fail(rep, "read-fault", cfg, pats, data, si, spare, Some(k), format!("fault-free {:?}, got {:?}", want, got));
         }
+        // the fault is transient: a caller that keeps iterating is told "end of stream" only once
+        // the reader has reported it, and what it is given stays a prefix of the fault-free run
+        let eof = std::sync::atomic::AtomicBool::new(false);
+        let got2 = catch_unwind(AssertUnwindSafe(|| stream_find_resume(b, SchedReader { data, pos: 0, sched: SCHEDS[si], i: 0, fail_at: Some(k), eof: Some(&eof) })));
+        rep.case(true);
+        let ok2 = match &got2 {
+            Ok(Ok((v, ended))) => {
+                let oks: Vec<&M> = v.iter().filter_map(|x| x.as_ref().ok()).collect();
+                let is_prefix = oks.len() <= want.len() && oks.iter().zip(&want).all(|(a, b)| *a == b);
+                is_prefix && (!*ended || eof.load(std::sync::atomic::Ordering::Relaxed))
+            }
+            _ => false,
+        };
+        if !ok2 {
+            fail(rep, "read-fault-resume", cfg, pats, data, si, spare, Some(k), format!("iteration continued after the (transient) read error: fault-free {:?}, got (items, ended) {:?}, reader reported end of stream: {}", want, got2, eof.load(std::sync::atomic::Ordering::Relaxed)));
+        }
         let mut w = FaultWriter { out: vec![], fail_after: None };
-        let r = catch_unwind(AssertUnwindSafe(|| stream_replace(b, SchedReader { data, pos: 0, sched: SCHEDS[si], i: 0, fail_at: Some(k) }, &mut w, &repl)));
+        let r = catch_unwind(AssertUnwindSafe(|| stream_replace(b, SchedReader { data, pos: 0, sched: SCHEDS[si], i: 0, fail_at: Some(k), eof: None }, &mut w, &repl)));
         rep.case(true);
         if !matches!(&r, Ok(Err(_))) || !want_out.starts_with(&w.out) {
             fail(rep, "read-fault-replace", cfg, pats, data, si, spare, Some(k), format!("fault-free output '{}', written '{}', result {:?}", show(&want_out), show(&w.out), r.map(|x| x.map_err(|e| e.to_string()))));
@@ -250,7 +310,7 @@ pub fn check_one(rep: &Report, cfg: &Cfg, b: &Built, pats: &[Vec<u8>], data: &[u
     // C18: a write fault after k bytes
     for k in 0..want_out.len() {
         let mut w = FaultWriter { out: vec![], fail_after: Some(k) };
-        let r = catch_unwind(AssertUnwindSafe(|| stream_replace(b, SchedReader { data, pos: 0, sched: SCHEDS[si], i: 0, fail_at: None }, &mut w, &repl)));
+        let r = catch_unwind(AssertUnwindSafe(|| stream_replace(b, SchedReader { data, pos: 0, sched: SCHEDS[si], i: 0, fail_at: None, eof: None }, &mut w, &repl)));
         rep.case(true);
         if !matches!(&r, Ok(Err(_))) || !want_out.starts_with(&w.out) {
             fail(rep, "write-fault", cfg, pats, data, si, spare, Some(k), format!("fault-free output '{}', written '{}', result {:?}", show(&want_out), show(&w.out), r.map(|x| x.map_err(|e| e.to_string()))));
@@ -274,6 +334,54 @@ fn long_pattern_case(rep: &Report, longpat: &[u8]) {
                     continue;
                 }
                 check_one(rep, &cfg, &b, &pats, &data, si, None, false, true, si != 0);
+            }
+        }
+    }
+}
+
+/// streams longer than any internal buffer or size threshold (1 MiB + 1, 3 MB): the stream APIs
+/// of the front end equal the in-memory ones
+fn large_stream_case(rep: &Report, do_find: bool, do_replace: bool) {
+    let pats: Vec<Vec<u8>> = vec![b"needle".to_vec(), b"hay".to_vec(), b"stack!".to_vec()];
+    let repl: Vec<Vec<u8>> = vec![b"N".to_vec(), b"".to_vec(), b"<stack>".to_vec()];
+    for total in [(1usize << 20) - 1, 1 << 20, (1 << 20) + 1, 3_000_000] {
+        let mut data: Vec<u8> = Vec::with_capacity(total);
+        let unit = b"..hay...needle....stack!.......";
+        while data.len() < total {
+            let k = (total - data.len()).min(unit.len());
+            data.extend_from_slice(&unit[..k]);
+        }
+        for engine in [Engine::TopAuto, Engine::TopNonContig] {
+            let cfg = Cfg { engine, sk: StartKindC::U, mk: Kind::Std, ci: false, pre: true, dd: None, bc: true };
+            let t = match build(&cfg, &pats) {
+                Ok(Built::Top(t)) => t,
+                _ => continue,
+            };
+            aho_corasick::verif::set_buffer_spare_capacity(None);
+            if do_replace {
+                let want = t.replace_all_bytes(&data, &repl);
+                let mut w = FaultWriter { out: vec![], fail_after: None };
+                let r = catch_unwind(AssertUnwindSafe(|| t.try_stream_replace_all(SchedReader { data: &data, pos: 0, sched: SCHEDS[4], i: 0, fail_at: None, eof: None }, &mut w, &repl)));
+                rep.case(true);
+                if !matches!(&r, Ok(Ok(()))) || w.out != want {
+                    rep.fail(Fail { key: format!("stream:large:replace:{}", total), what: format!("stream replacement of a {}-byte stream [{}]: {} bytes written, the in-memory replacement has {} ({:?})", total, cfg.encode(), w.out.len(), want.len(), r.map(|x| x.map_err(|e| e.to_string()))), argv: vec!["stream".into()] });
+                }
+                let mut w2 = FaultWriter { out: vec![], fail_after: None };
+                let mut nseen = 0usize;
+                let r2 = catch_unwind(AssertUnwindSafe(|| t.try_stream_replace_all_with(SchedReader { data: &data, pos: 0, sched: SCHEDS[4], i: 0, fail_at: None, eof: None }, &mut w2, |m, _b, w| { nseen += 1; w.write_all(&repl[m.pattern().as_usize()]) })));
+                rep.case(true);
+                if !matches!(&r2, Ok(Ok(()))) || w2.out != want {
+                    rep.fail(Fail { key: format!("stream:large:replace_with:{}", total), what: format!("stream replacement (closure) of a {}-byte stream [{}]: {} bytes written, expected {}", total, cfg.encode(), w2.out.len(), want.len()), argv: vec!["stream".into()] });
+                }
+            }
+            if do_find {
+                let want: Vec<M> = t.find_iter(&data).map(cv).collect();
+                let got = catch_unwind(AssertUnwindSafe(|| stream_find(&Built::Top(t.clone()), SchedReader { data: &data, pos: 0, sched: SCHEDS[4], i: 0, fail_at: None, eof: None })));
+                rep.case(true);
+                let ok = matches!(&got, Ok(Ok(v)) if v.len() == want.len() && v.iter().zip(&want).all(|(a, b)| a.as_ref().ok() == Some(b)));
+                if !ok {
+                    rep.fail(Fail { key: format!("stream:large:find:{}", total), what: format!("stream find_iter over a {}-byte stream [{}] differs from the in-memory iterator ({} matches expected)", total, cfg.encode(), want.len()), argv: vec!["stream".into()] });
+                }
             }
         }
     }
@@ -311,6 +419,9 @@ pub fn run(args: &Args) -> Report {
     // a pattern longer than 8 KiB: the retained tail (min) times 8 exceeds the default capacity
     let longpat: Vec<u8> = (0..9000usize).map(|i| b"ab"[(i * i / 7) % 2]).collect();
     long_pattern_case(&rep, &longpat);
+    if !faults {
+        large_stream_case(&rep, do_find, do_replace);
+    }
     let mut datas = gen::strings(b"ab", 0, if thorough { 7 } else { 5 });
     let mut rng = Rng(0x57 + seed as u64);
     for _ in 0..(if thorough { 40 } else { 10 }) {
